@@ -306,6 +306,35 @@ def run_case(ctx, case):
     ctx.check(isinstance(inst, orig) and type(inst) is orig, 'instance-type-not-exactly-original', 'cls-neither: %r' % type(inst))
     ctx.bucket('type-identity')
 
+  # ---- two distinct callable objects that compare (and hash) equal are two objects: registering one does not make the other known
+  if kind == 'callable-instance' and n % 2 == 0:
+    ctx.bucket('kind:callable-instances-comparing-equal')
+
+    class EqCallable:
+      def __init__(self, tag):
+        self.tag = tag
+
+      def __call__(self, x=0):
+        return (self.tag, x)
+
+      def __eq__(self, other):
+        return isinstance(other, EqCallable)
+
+      def __hash__(self):
+        return 13
+    ea, eb = EqCallable('a'), EqCallable('b')
+    gin.external_configurable(ea, name='eqa' + base, module='c13')
+    gin.external_configurable(eb, name='eqb' + base, module='c13')
+    gin.bind_parameter('c13.eqa%s.x' % base, 1)
+    gin.bind_parameter('c13.eqb%s.x' % base, 2)
+    try:
+      got = (gin.get_configurable(ea)(), gin.get_configurable(eb)())
+    except Exception as e:  # pylint: disable=broad-except
+      got = 'raised %r' % (e,)
+    ctx.check(got == (('a', 1), ('b', 2)), 'registry-identifies-callables-by-equality', 'two distinct callable objects a and b that compare equal, registered under two names: '
+              'the versions reached through the original objects returned %r, expected ((a, 1), (b, 2))' % (got,))
+    gin.clear_config()
+
   # ---- the same object registered once more under the same name (accepted, also outside interactive mode): lookups through the object keep working
   if api in ('register', 'external') and kind not in ('cls-final', 'cls-meta-kwargs') and n % 3 == 0:
     ctx.bucket('history:same-object-registered-again')
